@@ -55,6 +55,8 @@ pub enum RealKind {
     Missing,
     /// an existing file without execute permission
     NotExecutable,
+    /// `cmd[0]` is a real program, run as it is
+    Program,
 }
 
 impl XargsScenario {
@@ -170,6 +172,7 @@ pub fn run_xargs_with(sc: &XargsScenario, plan: &[ReadOp], ctx: &mut Ctx) -> Xar
                 cmd = c;
                 log_path = Some(lp);
             }
+            RealKind::Program => {}
             RealKind::Missing => {
                 cmd[0] = dir.join("no-such-command").to_string_lossy().into_owned();
             }
